@@ -137,11 +137,16 @@ class ArrayMap(Map):
                 for k, v in cls.__dict__.items():
                     if isinstance(v, ArrayGlobalVarDesc) and v.map is self \
                             and k not in unique:
-                        collection.append((fmtsize(v.fmt), prog, k))
+                        # variables with several elements are aligned
+                        # like one of them (atomic adds need that)
+                        align = fmtsize(v.fmt[-1]) if isinstance(v.fmt, str) \
+                            else fmtsize(v.fmt)
+                        collection.append(
+                            ((align, fmtsize(v.fmt)), prog, k))
                         unique.add(k)
         collection.sort(key=lambda t: t[0], reverse=True)
         position = 0
-        for size, prog, name in collection:
+        for (_, size), prog, name in collection:
             prog.__dict__[name] = position
             position += size
         position = ((position + 7) // 8) * 8
